@@ -51,20 +51,32 @@ CTX = ["top", "in_loop", "in_if", "in_function", "inlined"]
 
 def term_loop_cases(modules, thorough: bool) -> list[dict]:
     """quick: the full (trip count x cond) product for the modules that define their own Loop class
-    (v17, v19, v21); for the re-exporting modules the cond-omitted / cond-fed columns. thorough: all."""
+    (v17, v19, v21); for the re-exporting modules the cond-omitted column. thorough: everything."""
     cases = []
+    quick_brk = [b for b in BRK if b != "const_true"]
     for mod in modules:
         own = thorough or mod in ("v17", "v19", "v21")
         for m in M_SRC:
-            if not thorough and m == "const1":
+            if not thorough and (m == "const1" or (not own and m not in ("const", "computed", "input"))):
                 continue
             for c in COND_SRC:
-                if own or c in ("none", "input"):
-                    cases.append({"module": mod, "M": m, "cond": c, "ctx": "top", "x": ["N"], "full": thorough})
+                if thorough or (own and c != "computed") or c == "none":
+                    cases.append({"module": mod, "M": m, "cond": c, "ctx": "top", "x": ["N"], "full": thorough,
+                                  "brk": BRK if thorough else quick_brk})
+        # constant initial shape: a doubling / narrowing carried value contradicts what the body declares
+        for m in ("const", "const1", "computed", "input") if own else ("const",):
+            cases.append({"module": mod, "M": m, "cond": "none", "ctx": "top", "x": [3], "full": thorough,
+                          "brk": BRK if thorough else ["never", "at_k"]})
         # the same loops nested in other constructs, for the combinations that matter most
+        if thorough:
+            combos = (("const", "none"), ("computed", "none"), ("init", "true"), ("const", "input"))
+        elif own:
+            combos = (("const", "none"), ("computed", "none")) if mod == "v17" else (("const", "none"),)
+        else:
+            combos = ()
         for ctx in CTX[1:]:
-            for m, c in (("const", "none"), ("computed", "none"), ("init", "true"), ("const", "input")) if thorough else (("const", "none"), ("computed", "none")):
-                cases.append({"module": mod, "M": m, "cond": c, "ctx": ctx, "x": [2], "full": thorough,
+            for m, c in combos:
+                cases.append({"module": mod, "M": m, "cond": c, "ctx": ctx, "x": [3], "full": thorough,
                               "brk": BRK if thorough else ["never", "at_input"]})
     return cases
 
@@ -110,7 +122,9 @@ def _term_body(op, brk: str, stop):
     empty = op.const(np.array([], dtype=I64))
     one = op.const(_i(1))
 
-    def body(i, c, v):
+    ones3 = op.const(np.ones((3,), dtype=np.float32))
+
+    def body(i, c, v, w, u):
         i0 = op.reshape(i, empty)  # the iteration number as a scalar
         if brk == "never":
             nxt = c
@@ -124,7 +138,9 @@ def _term_body(op, brk: str, stop):
             nxt = op.const(np.array(False))
         else:
             raise ValueError(brk)
-        return [nxt, op.add(v, v), i, v, op.const(np.zeros((3,), np.float32)), i0]
+        # three carried values: shape-preserving, doubling, narrowing (broadcast against a constant)
+        return [nxt, op.add(v, v), op.concat([w, w], axis=0), op.add(u, ones3),
+                i, v, op.const(np.zeros((3,), np.float32)), i0]
 
     return body
 
@@ -182,14 +198,14 @@ def run_term_loop(case: dict, rng, sizes, max_inst: int, extra_feeds=()) -> dict
             outs: list = []
             for brk in _brks(case):
                 def mk(xx, st, brk=brk):
-                    return list(op.loop(_trip(op, case["M"], args), _cond(op, case["cond"], args), [xx], body=_term_body(op, brk, st)))
+                    return list(op.loop(_trip(op, case["M"], args), _cond(op, case["cond"], args), [xx, xx, xx], body=_term_body(op, brk, st)))
 
                 if ctx == "top":
                     res = mk(x, stop)
                 elif ctx == "in_loop":  # the loop sits in the body of an outer loop that runs twice
                     def outer(i, c, v, mk=mk):
                         inner = mk(v, stop)
-                        return [c, op.identity(v)] + inner[1:]
+                        return [c, op.identity(v)] + inner[3:]
 
                     res = list(op.loop(op.const(_i(2)), None, [x], body=outer))
                 elif ctx == "in_if":  # the same loop in both branches: the merged type keeps their dims
@@ -217,7 +233,7 @@ def run_term_loop(case: dict, rng, sizes, max_inst: int, extra_feeds=()) -> dict
     except Exception as e:  # noqa: BLE001
         return _rej(e)
     feeds = []
-    for base in P.feeds_for({"x": args["x"]}, rng, [2, 0], 2):
+    for base in P.feeds_for({"x": args["x"]}, rng, [3, 1], 2):  # (the narrowing value broadcasts against 3)
         for m in ((0, 1, 2, 6) if "m" in args else (None,)):
             for c in ((True, False) if "c" in args else (None,)):
                 for st in (0, 1, 3):
@@ -282,8 +298,10 @@ def run_scan_family(case: dict, rng, sizes, max_inst: int, extra_feeds=()) -> di
 # ----------------------------------------------------------------------------- value-dependent inference
 SOURCES = [
     "const", "init", "computed", "sizeof", "computed_float", "inline_arith", "inline_loop_break", "inline_loop_full",
-    "inline_loop_condless", "inline_if", "loop_const", "loop_break", "if_const", "if_input", "function", "default", "input",
+    "inline_loop_condless", "inline_if", "loop_const", "loop_break", "if_const", "if_input", "function", "default", "input", "shape_static", "shape_symbolic",
 ]
+# sources whose value exists at compile time (or could): the ones worth the slow ONNXRUNTIME backend in the quick tier
+ORT_QUICK = ("computed", "inline_loop_break", "default", "shape_symbolic")
 GROUPS = ["safe", "risky"]
 BACKENDS = ["REFERENCE", "ONNXRUNTIME", "NONE"]
 
@@ -369,6 +387,10 @@ def _source(op, kind: str, args: dict):
         return args["d"]
     if kind == "input":
         return inp("k", {"e": "i64", "s": []})
+    if kind in ("shape_static", "shape_symbolic"):
+        # a dim of another input: a compile-time constant only where the static shape says so
+        y = inp("y", {"e": "f32", "s": [3, 2] if kind == "shape_static" else ["N", 2]})
+        return op.gather(op.shape(y), op.const(_i(0)))
     raise ValueError(kind)
 
 
@@ -411,6 +433,8 @@ def vdep_cases(thorough: bool) -> list[dict]:
             for b in BACKENDS:
                 if not thorough and b != "REFERENCE" and g == "risky":
                     continue
+                if not thorough and b == "ONNXRUNTIME" and src not in ORT_QUICK:
+                    continue
                 cases.append({"src": src, "group": g, "backend": b, "module": mods[j % len(mods)] if not thorough else None})
     if thorough:
         cases = [dict(c, module=m) for c in cases for m in mods]
@@ -441,6 +465,9 @@ def run_vdep(case: dict, rng, sizes, max_inst: int, extra_feeds=()) -> dict:
         feeds = [dict(base, k=_i(v)) for v in (0, 1, 3, 4)]
     if "d" in args:
         feeds = [dict(base), dict(base, d=_i(4)), dict(base, d=_i(1))]
+    if "y" in args:
+        n0 = args["y"].type.shape[0]
+        feeds = [dict(base, y=np.zeros((n, 2), np.float32)) for n in ((n0,) if isinstance(n0, int) else (0, 1, 3, 4))]
     st = P.observe(args, outs, rng, sizes, max_inst, extra_feeds=list(extra_feeds) + feeds, only_extra=True)
     collapsed = []
     for f in st["fails"]:
